@@ -1417,7 +1417,8 @@ namespace avel {
 
         auto offset = copysign(vec2x64f{1.0}, v);
         auto should_offset = abs(frac) >= vec2x64f{0.5};
-        auto ret = whole + keep(should_offset, offset);
+        // Adding +0.0 would turn a -0.0 into +0.0; the result always has the sign of the input
+        auto ret = copysign(whole + keep(should_offset, offset), v);
 
         return ret;
 
